@@ -4,7 +4,14 @@ package gen
 
 type Rand struct{ s uint64 }
 
-func New(seed uint64) *Rand { return &Rand{s: seed*0x9E3779B97F4A7C15 + 0x1234567} }
+// New hashes the seed so that nearby seeds give unrelated streams (a plain multiple of the increment
+// would make seed k+1 the same stream as seed k advanced by one step).
+func New(seed uint64) *Rand {
+	z := seed + 0x632BE59BD9B4E019
+	z = (z ^ (z >> 30)) * 0xBF58476D1CE4E5B9
+	z = (z ^ (z >> 27)) * 0x94D049BB133111EB
+	return &Rand{s: z ^ (z >> 31)}
+}
 
 func (r *Rand) U64() uint64 {
 	r.s += 0x9E3779B97F4A7C15
